@@ -1419,6 +1419,14 @@ func (ex *Exec) intBitop(op token.Token, a, b *Term, bits int, signed bool) *Ter
 			}
 		}
 	}
+	// single-bit test on a non-negative value: x & 2^k = ((x div 2^k) mod 2) * 2^k
+	if op == token.AND && !signed {
+		for _, p := range [][2]*Term{{a, b}, {b, a}} {
+			if p[1].IsConst() && p[1].Val.Sign() > 0 && new(big.Int).And(p[1].Val, new(big.Int).Sub(p[1].Val, big.NewInt(1))).Sign() == 0 {
+				return IMul(IModE(IDivE(p[0], IntBig(p[1].Val)), IntC(2)), IntBig(p[1].Val))
+			}
+		}
+	}
 	if a.IsConst() && b.IsConst() {
 		var r big.Int
 		switch op {
@@ -1690,6 +1698,7 @@ func (ex *Exec) payload(st *State, v IfaceV, t types.Type) Val {
 	}
 	p := ex.symVal(st, v.Sym.Name+"!"+shortType(t), t, 2)
 	v.Sym.Payloads[k] = p
+	ex.linkGhost(st, v, t, p)
 	return p
 }
 
